@@ -56,6 +56,11 @@ type PoolScenario struct {
 	// sending (the pool's reader sees a clean end of stream) but its receiving side stays open and
 	// unread, so a write larger than StallBytes blocks until the pool closes the connection itself.
 	HalfClose bool `json:"halfClose,omitempty"`
+	// Monitor > 0: the pool's own monitor is left running with an evaluation interval of five
+	// virtual seconds and rend's default expansion thresholds; "the monitor evaluates the pool" (five
+	// seconds pass) is an event, at most Monitor times per execution. With small batches that are
+	// always full the monitor adds pooled connections while callers are being served.
+	Monitor int `json:"monitor,omitempty"`
 	// AltCap > 0: at every decision only the default and its AltCap nearest alternatives are explored.
 	AltCap int `json:"altCap,omitempty"`
 }
@@ -228,6 +233,9 @@ func RunPool(sc PoolScenario, prefix []int) *PoolResult {
 	}
 	opts := batched.Opts{BatchSize: uint32(sc.BatchSize), BatchDelayMicros: uint32(poolBatchDelay / time.Microsecond), ReadBufSize: bufSize, WriteBufSize: bufSize,
 		EvaluationIntervalSec: 4000000000, LoadFactorExpandRatio: 1000, OverloadedConnRatio: 1000}
+	if sc.Monitor > 0 {
+		opts.EvaluationIntervalSec, opts.LoadFactorExpandRatio, opts.OverloadedConnRatio = 5, 0, 0 // 0: rend's defaults
+	}
 	h0 := batched.NewHandler(sock, opts)
 	for batched.VerifPoolSize(sock) < sc.PoolSize {
 		batched.VerifAddConn(sock)
@@ -257,6 +265,7 @@ func RunPool(sc PoolScenario, prefix []int) *PoolResult {
 	}
 	lateOp := wire.Op{Kind: "set", Key: "late", Val: "late-value", Flags: 77}
 	cutsLeft := sc.MaxCuts
+	monitorLeft := sc.Monitor
 	maxSteps := 40 + 12*sc.MaxCuts + 8*len(sc.Callers)
 	if len(sc.Yields) > 0 {
 		maxSteps += 60
@@ -308,6 +317,10 @@ func RunPool(sc PoolScenario, prefix []int) *PoolResult {
 		}
 		opts = append(opts, "advance-time")
 		evs = append(evs, ev{"advance", 0, 0})
+		if monitorLeft > 0 {
+			opts = append(opts, "monitor-evaluates-pool")
+			evs = append(evs, ev{"monitor", 0, 0})
+		}
 		if cutsLeft > 0 && !started[n] {
 			mu.Lock()
 			for j, pc := range pconns {
@@ -367,6 +380,10 @@ func RunPool(sc PoolScenario, prefix []int) *PoolResult {
 				time.Sleep(1100 * time.Millisecond)
 				res.ElapsedSec += 2
 			}
+		case "monitor":
+			monitorLeft--
+			time.Sleep(5 * time.Second)
+			res.ElapsedSec += 5
 		case "cut":
 			cutsLeft--
 			res.Cuts++
